@@ -78,7 +78,9 @@ def model_cfg(bounds, mech=None, invariants=(), properties=(), spec="Spec", view
 
 def trace_cfg(invariants=(), properties=()):
     b = dict(MaxSteps=1000000, MaxThermal=1000000, MaxRefusals=1000000)
-    return model_cfg(b, None, ["Accepted"] + list(invariants), properties, spec="TSpec", view=False)
+    # `Accepted` (which prints ACCEPT) is listed LAST: TLC evaluates invariants in the order of the cfg and stops at the
+    # first one that is false, so a trace whose final state violates a clause is never reported as accepted
+    return model_cfg(b, None, list(invariants) + ["Accepted"], properties, spec="TSpec", view=False)
 
 
 def export_scripts(ctx, bounds, name="StepCtl (behaviour export)", timeout=600):
@@ -312,8 +314,11 @@ def ref_induced(J_site, areas, sites, edge_centers):
     return w @ np.asarray(J_site, float)
 
 
-def natural_run(tdgl, p, tmp=None):
-    """One run of the real solver with real physics; returns a "flags" trace."""
+def natural_run(tdgl, p, tmp=None, opts=None):
+    """One run of the real solver with real physics; returns a "flags" trace.
+    `opts`: a SolverOptions object to RE-USE (natural_history); the fields named in p["reuse_set"] are assigned on it
+    as a caller would do between two runs, everything else is left as the previous run left it."""
+    import dataclasses
     import h5py
     import numpy as np
     from tdgl.finite_volume.operators import MeshOperators
@@ -331,7 +336,12 @@ def natural_run(tdgl, p, tmp=None):
     tol = p.get("tol", 1e-3)
     alpha, beta = p.get("alpha", 0.1), p.get("beta", 0.5)
     maxiter = p.get("maxiter", 1000)
-    opts = tdgl.SolverOptions(
+    if opts is not None:
+        for name, value in p.get("reuse_set", {}).items():
+            setattr(opts, name, value)
+        opts.output_file = str(sandbox / "out.h5")
+    else:
+      opts = tdgl.SolverOptions(
         solve_time=p["solve_time"], skip_time=p.get("skip_time", 0.0), dt_init=dt_init, dt_max=dt_max_opt, adaptive=adaptive, adaptive_window=window,
         max_solve_retries=p.get("retries", 10), adaptive_time_step_multiplier=mult, include_screening=screening,
         max_iterations_per_step=maxiter, screening_tolerance=tol, screening_step_size=alpha,
@@ -472,6 +482,7 @@ def natural_run(tdgl, p, tmp=None):
         P.set(TDGLSolver, "solve_for_psi_squared", staticmethod(solve_w))
         P.set(TDGLSolver, "get_induced_vector_potential", giv_w)
         P.set(MeshOperators, "set_link_exponents", sle_w)
+        opts_before = {k: repr(v) for k, v in dataclasses.asdict(opts).items()}
         try:
             tdgl.solve(dev, opts, applied_vector_potential=p.get("field", 0.0), terminal_currents=currents)
         except Exception as e:  # noqa
@@ -503,11 +514,18 @@ def natural_run(tdgl, p, tmp=None):
                 fr = {"ev": "frame", "step": int(g.attrs["step"]), "mism": q, "azero": azero, "mism_over_tol": mism / tol}
                 frames.append(fr)
     ev.extend(frames)
+    # the options object handed to tdgl.solve is the caller's: it must come back unchanged, field by field
+    opts_after = {k: repr(v) for k, v in dataclasses.asdict(opts).items()}
+    ev.append({"ev": "options", "changed": sorted(k for k in opts_before if opts_after.get(k) != opts_before[k]),
+               "fields": len(opts_before)})
     import shutil
 
     shutil.rmtree(sandbox, ignore_errors=True)
     cfg = dict(thermal=bool(p.get("skip_time", 0.0) > 0), adaptive=adaptive, screening=screening, window=window, retries=p.get("retries", 10), mulexp=1, inite=4,
                maxe=0, maxiter=maxiter, tolexp=7, alphaexp=0, betaq=2)
+    if p.get("_keep_opts"):
+        p = {k: v for k, v in p.items() if k != "_keep_opts"}
+        _KEPT["opts"] = opts
     return {"mode": "flags", "cfg": cfg, "ev": ev, "params": p, "raised": raised,
             "stats": {"updates": st["n_updates"], "restarts": st.get("restarts", 0),
                       "updates_before_restart": st.get("updates_before_restart", 0),
@@ -523,10 +541,29 @@ def natural_run(tdgl, p, tmp=None):
                       "max_frame_mismatch_over_tol": max([f["mism_over_tol"] for f in frames], default=0.0)}}
 
 
+_KEPT = {}
+
+
+def natural_history(tdgl, p, tmp=None):
+    """Two runs that share ONE SolverOptions object, as a user script would: p["first"] (e.g. dt_init == dt_max), then
+    the same object with the fields of p["then_set"] assigned (e.g. a larger dt_max).  Returns the two traces; the second
+    is validated against the configuration the CALLER holds (what was asked for), so state leaking from the first run
+    into the options object shows as a rejected trace."""
+    first = dict(p["first"], _keep_opts=True)
+    t1 = natural_run(tdgl, first, tmp)
+    opts = _KEPT.pop("opts")
+    second = dict(p["first"], **p["then_set"])
+    second["reuse_set"] = dict(p["then_set"])
+    t2 = natural_run(tdgl, second, tmp, opts=opts)
+    t1["params"] = dict(t1["params"], history="first run of a shared options object")
+    t2["params"] = dict(t2["params"], history="second run of the same options object", after=p["first"])
+    return [t1, t2]
+
+
 def strip_trace(t):
     """What TLC needs (floats removed: the JSON reader of the trace module handles ints, strings, booleans)."""
     keep = {"ev", "step", "tent", "a", "dt", "refused", "delta", "k", "v", "conv", "iters", "why", "rels", "pos",
-            "lemax", "isinit", "azero", "mism"}
+            "lemax", "isinit", "azero", "mism", "changed"}
     ev = []
     for e in t["ev"]:
         d = {k: v for k, v in e.items() if k in keep}
@@ -685,6 +722,9 @@ def validate(ctx, module, traces, cfg, what, describe, prepare=lambda t: t, max_
             for j in sorted(acc2):
                 accepted.add(pending[j])
             pending = [m for j, m in enumerate(pending) if j not in acc2]
+    if r is not None and r.violated and len(accepted) == len(traces) and not rounds:
+        # cannot happen with `Accepted` listed last; kept as a net: a clause was violated but every trace printed ACCEPT
+        raise core.MachineryFailure(f"{what}: TLC reports {r.violated} violated but no trace was rejected")
     if pending:
         ctx.cov["further_rejected_traces_not_diagnosed"] = ctx.cov.get("further_rejected_traces_not_diagnosed", 0) + len(pending)
     if pending and not reported:
@@ -760,7 +800,7 @@ def canary(ctx, module, traces, accepted, cfg, mutate, what, prepare=lambda t: t
                               "wall_s": round(r.wall, 2), "violated": r.violated})
     if r.errors or (not r.finished and not r.violated):
         raise core.MachineryFailure(f"canary[{what}]: TLC failed: {r.errors[:3]}\n{r.out[-2000:]}")
-    if any(re.match(r'<<"ACCEPT", \d+>>', line) for line in r.printed()):
+    if not r.violated and any(re.match(r'<<"ACCEPT", \d+>>', line) for line in r.printed()):
         raise core.MachineryFailure(f"{what}: corrupted trace was accepted — the binding is vacuous")
     ctx.cov["canaries_rejected"] += 1
 
@@ -963,11 +1003,11 @@ def replay_and_validate(ctx, scripts, naturals, what, chunk=25):
         jobs.append(("call", dict(module="harness.stepctl", func="replay_scripts", args=dict(scripts=scripts[n:n + chunk]))))
     nchunks = len(jobs)
     for p in naturals:
-        jobs.append(("call", dict(module="harness.stepctl", func="natural_run", args=p)))
+        jobs.append(("call", dict(module="harness.stepctl", func="natural_history" if "first" in p else "natural_run", args=p)))
     # long natural runs first would be better for the pool; keep order simple and results aligned
     res = rf.replay_all(ctx, jobs)
     straces = [t for r in res[:nchunks] for t in r]
-    ntraces = res[nchunks:]
+    ntraces = [t for r in res[nchunks:] for t in (r if isinstance(r, list) else [r])]     # a history yields two traces
     for s, t in zip(scripts, straces):
         ctx.note_case(("script", describe_script(s)), script_relevance(s))
     for t in ntraces:
@@ -978,3 +1018,11 @@ def replay_and_validate(ctx, scripts, naturals, what, chunk=25):
         sacc |= {lo + n for n in part}
     nacc = validate(ctx, "StepCtlTrace", ntraces, flags_cfg(), f"{what}/natural", describe_trace, prepare=strip_trace) if ntraces else set()
     return straces, sacc, ntraces, nacc
+
+
+def mut_flags_options(t):
+    """the run rewrote a field of the caller's options object"""
+    if t["mode"] != "flags" or not t["ev"] or t["ev"][-1]["ev"] != "options":
+        return None
+    t["ev"][-1]["changed"] = ["adaptive"]
+    return t
